@@ -33,6 +33,9 @@ structure Inv (s : St) : Prop where
   regOld : s.reg < s.next
   bufCur : ∀ k, s.cur = some k → ∀ x ∈ s.buf, x.1 ≠ k
   connsShort : s.conns.length ≤ (if (s.cur.isSome || s.returning.isSome) = true then 1 else 0)
+  lateNone : s.lateDials = []
+  dialExcl : ∀ k, s.dialing = some k →
+    s.cur = none ∧ s.returning = none ∧ s.conns = [] ∧ s.reg = k ∧ k < s.next ∧ ∀ x ∈ s.buf, x.1 ≠ k
 
 theorem inv_init : Inv {} := by
   constructor <;> simp
@@ -45,23 +48,36 @@ theorem takeMsg_none (buf : List (Nat × Nat)) (c : Nat) (h : ∀ x ∈ buf, x.1
   rw [this]
 
 theorem step_inv (cfg : Cfg) (hg : cfg.good = true) (s : St) (ev : Ev) (h : Inv s) : Inv (step cfg s ev) := by
-  have hg' : cfg.closesConn = true ∧ cfg.ownChan = true ∧ cfg.buffered = true ∧ cfg.nonBlocking = true := by
-    simp [Cfg.good] at hg; exact ⟨hg.1.1.1.1.1, hg.1.1.1.1.2, hg.1.1.1.2, hg.1.1.2⟩
+  have hg' : cfg.closesConn = true ∧ cfg.ownChan = true ∧ cfg.buffered = true ∧ cfg.nonBlocking = true ∧
+      cfg.syncDial = true := by
+    simp [Cfg.good] at hg; exact ⟨hg.1.1.1.1.1.1, hg.1.1.1.1.1.2, hg.1.1.1.1.2, hg.1.1.1.2, hg.1.2⟩
   have hser : cfg.serial = true := by simp [Cfg.good] at hg; exact hg.2
-  obtain ⟨hc, ho, hb, hn⟩ := hg'
+  obtain ⟨hc, ho, hb, hn, hsd⟩ := hg'
   have hchan : ∀ k, chanOf cfg k = k := by intro k; simp [chanOf, ho]
+  -- a request that waits, or that is returning, is not dialling
+  have hdialCur : ∀ k, s.cur = some k → s.dialing = none := by
+    intro k hk
+    cases hd : s.dialing with
+    | none => rfl
+    | some d => have := (h.dialExcl d hd).1; simp [hk] at this
+  have hdialRet : ∀ k, s.returning = some k → s.dialing = none := by
+    intro k hk
+    cases hd : s.dialing with
+    | none => rfl
+    | some d => have := (h.dialExcl d hd).2.1; simp [hk] at this
   cases ev with
   | start =>
     unfold step
     by_cases hw : s.wedged = true
     · simp [hw]; exact h
     · simp only [hw, Bool.false_eq_true, if_false, hser, Bool.true_and]
-      by_cases hbusy : (s.cur.isSome || s.returning.isSome) = true
+      by_cases hbusy : (s.cur.isSome || s.returning.isSome || s.dialing.isSome) = true
       · simp only [hbusy, if_true]; exact h
       · simp only [hbusy, Bool.false_eq_true, if_false]
         have hb0 := h.notBlocked
         simp only [hb0, Nat.lt_irrefl, gt_iff_lt, if_false]
         simp only [Bool.or_eq_true, not_or, Bool.not_eq_true, Option.isSome_eq_false_iff, Option.isNone_iff_eq_none] at hbusy
+        obtain ⟨⟨hb1, hb2⟩, hb3⟩ := hbusy
         -- the new request's channel is fresh: nothing to drain
         have hd : ∀ x ∈ s.buf, x.1 ≠ chanOf cfg s.next := by
           intro x hx; rw [hchan]; have := h.bufOld x hx; omega
@@ -75,20 +91,27 @@ theorem step_inv (cfg : Cfg) (hg : cfg.good = true) (s : St) (ev : Ev) (h : Inv 
           simp only [List.mem_cons] at hj
           rcases hj with rfl | hj
           · left; rfl
-          · have := h.connsOwned j hj; simp [hbusy.1, hbusy.2] at this
-        · intro _; exact hbusy.2
+          · have := h.connsOwned j hj; simp [hb1, hb2] at this
+        · intro _; exact hb2
         · intro k hk; simp only [Option.some.injEq] at hk; subst hk; exact ⟨hchan _, Nat.lt_succ_self _⟩
         · intro x hx; have := h.bufOld x hx; exact Nat.lt_succ_of_lt this
         · show chanOf cfg s.next < s.next + 1; rw [hchan]; exact Nat.lt_succ_self _
         · intro k hk x hx; simp only [Option.some.injEq] at hk; subst hk; have := h.bufOld x hx; omega
         · have := h.connsShort
-          simp only [hbusy.1, hbusy.2, Option.isSome_none, Bool.or_self, Bool.false_eq_true, if_false, Nat.le_zero,
+          simp only [hb1, hb2, Option.isSome_none, Bool.or_self, Bool.false_eq_true, if_false, Nat.le_zero,
             List.length_eq_zero_iff] at this
           simp [this]
+        · exact h.lateNone
+        · intro k hk; simp [hb3] at hk
   | answer j =>
     unfold step
     by_cases hj : s.conns.contains j = true
     · simp only [hj, Bool.not_true, Bool.false_eq_true, if_false]
+      -- a connection is open: nobody is dialling
+      have hnd : s.dialing = none := by
+        cases hd : s.dialing with
+        | none => rfl
+        | some d => have := (h.dialExcl d hd).2.2.1; simp [this] at hj
       cases hcur : s.cur with
       | some k =>
         simp only
@@ -114,6 +137,8 @@ theorem step_inv (cfg : Cfg) (hg : cfg.good = true) (s : St) (ev : Ev) (h : Inv 
         · exact (h.curReg _ hcur).2
         · intro k' hk'; simp at hk'
         · have := h.connsShort; simp [hcur] at this; simpa using this
+        · exact h.lateNone
+        · intro k' hk'; simp [hnd] at hk'
       | none =>
         simp only [hb, Bool.true_and]
         by_cases hm : hasMsg s.buf s.reg = true
@@ -135,6 +160,8 @@ theorem step_inv (cfg : Cfg) (hg : cfg.good = true) (s : St) (ev : Ev) (h : Inv 
           · exact h.regOld
           · intro k hk; simp at hk
           · have := h.connsShort; simpa [hcur] using this
+          · exact h.lateNone
+          · intro k' hk'; simp [hnd] at hk'
     · simp only [hj, Bool.not_false, if_true]; exact h
   | timeout =>
     unfold step
@@ -143,6 +170,7 @@ theorem step_inv (cfg : Cfg) (hg : cfg.good = true) (s : St) (ev : Ev) (h : Inv 
     | some k =>
       simp only
       have hret : s.returning = none := h.exclusive (by simp [hcur])
+      have hnd := hdialCur k hcur
       constructor
       · exact h.notBlocked
       · exact h.notWedged
@@ -158,12 +186,15 @@ theorem step_inv (cfg : Cfg) (hg : cfg.good = true) (s : St) (ev : Ev) (h : Inv 
       · exact h.regOld
       · intro k' hk'; simp at hk'
       · have := h.connsShort; simp [hcur] at this; simpa using this
+      · exact h.lateNone
+      · intro k' hk'; simp [hnd] at hk'
   | ret =>
     unfold step
     cases hret : s.returning with
     | none => simp only; exact h
     | some k =>
       simp only [hc, if_true]
+      have hnd := hdialRet k hret
       have hcur : s.cur = none := by
         cases hcc : s.cur with
         | none => rfl
@@ -187,6 +218,68 @@ theorem step_inv (cfg : Cfg) (hg : cfg.good = true) (s : St) (ev : Ev) (h : Inv 
         have : s.conns.filter (· != k) = [] := by
           rw [List.filter_eq_nil_iff]; intro i hi; simp [hall i hi]
         simp [this, hcur]
+      · exact h.lateNone
+      · intro k' hk'; simp [hnd] at hk'
+  | startSlow =>
+    unfold step
+    by_cases hw : s.wedged = true
+    · simp [hw]; exact h
+    · simp only [hw, Bool.false_eq_true, if_false, hser, Bool.true_and]
+      by_cases hbusy : (s.cur.isSome || s.returning.isSome || s.dialing.isSome) = true
+      · simp only [hbusy, if_true]; exact h
+      · simp only [hbusy, Bool.false_eq_true, if_false]
+        have hb0 := h.notBlocked
+        simp only [hb0, Nat.lt_irrefl, gt_iff_lt, if_false]
+        simp only [Bool.or_eq_true, not_or, Bool.not_eq_true, Option.isSome_eq_false_iff, Option.isNone_iff_eq_none] at hbusy
+        obtain ⟨⟨hb1, hb2⟩, hb3⟩ := hbusy
+        have hconns : s.conns = [] := by
+          have := h.connsShort
+          simpa [hb1, hb2] using this
+        constructor
+        · first | exact hb0 | rfl | simp [hb0]
+        · first | rfl | simp [hw]
+        · exact h.logOk
+        · intro j hj; simp [hconns] at hj
+        · intro hh; simp [hb1] at hh
+        · intro k hk; simp [hb1] at hk
+        · intro x hx; have := h.bufOld x hx; exact Nat.lt_succ_of_lt this
+        · show chanOf cfg s.next < s.next + 1; rw [hchan]; exact Nat.lt_succ_self _
+        · intro k hk; simp [hb1] at hk
+        · simp [hconns]
+        · exact h.lateNone
+        · intro k hk
+          simp only [Option.some.injEq] at hk
+          subst hk
+          refine ⟨hb1, hb2, hconns, hchan _, Nat.lt_succ_self _, ?_⟩
+          intro x hx; have := h.bufOld x hx; omega
+  | dialDone k =>
+    unfold step
+    by_cases hd : s.dialing = some k
+    · simp only [hd, if_true]
+      obtain ⟨e1, e2, e3, e4, e5, e6⟩ := h.dialExcl k hd
+      have hdr : ∀ x ∈ s.buf, x.1 ≠ chanOf cfg k := by intro x hx; rw [hchan]; exact e6 x hx
+      unfold drain
+      simp only [takeMsg_none s.buf _ hdr]
+      constructor
+      · exact h.notBlocked
+      · exact h.notWedged
+      · exact h.logOk
+      · intro j hj; simp [e3] at hj; left; simp [hj]
+      · intro _; exact e2
+      · intro k' hk'; simp only [Option.some.injEq] at hk'; subst hk'; exact ⟨e4, e5⟩
+      · exact h.bufOld
+      · exact h.regOld
+      · intro k' hk' x hx; simp only [Option.some.injEq] at hk'; subst hk'; exact e6 x hx
+      · simp [e3]
+      · exact h.lateNone
+      · intro k' hk'; simp at hk'
+    · simp only [hd, if_false, h.lateNone, List.contains_nil, Bool.false_eq_true]
+      exact h
+  | dialGiveUp =>
+    unfold step
+    cases hd : s.dialing with
+    | none => simp only; exact h
+    | some k => simp only [hsd, if_true]; exact h
 
 theorem run_inv (cfg : Cfg) (hg : cfg.good = true) (evs : List Ev) : ∀ s, Inv s → Inv (run cfg s evs) := by
   induction evs with
@@ -210,12 +303,12 @@ theorem C19_never_wedged (cfg : Cfg) (hg : cfg.good = true) (evs : List Ev) :
 
 /-- … so the subscriber's next request always gets going, whatever happened to the earlier ones -/
 theorem C19_next_request_starts (cfg : Cfg) (hg : cfg.good = true) (evs : List Ev)
-    (hidle : (run cfg {} evs).cur = none ∧ (run cfg {} evs).returning = none) :
+    (hidle : (run cfg {} evs).cur = none ∧ (run cfg {} evs).returning = none ∧ (run cfg {} evs).dialing = none) :
     (step cfg (run cfg {} evs) .start).cur = some (run cfg {} evs).next := by
   have h := reachable_inv cfg hg evs
-  have ho : cfg.ownChan = true := by simp [Cfg.good] at hg; exact hg.1.1.1.1.2
+  have ho : cfg.ownChan = true := by simp [Cfg.good] at hg; exact hg.1.1.1.1.1.2
   unfold step
-  simp only [h.notWedged, hidle.1, hidle.2, h.notBlocked, Option.isSome_none, Bool.or_self, Bool.false_eq_true,
+  simp only [h.notWedged, hidle.1, hidle.2.1, hidle.2.2, h.notBlocked, Option.isSome_none, Bool.or_self, Bool.false_eq_true,
     if_false, Nat.lt_irrefl, gt_iff_lt, Bool.and_false]
   have hd : ∀ x ∈ (run cfg {} evs).buf, x.1 ≠ chanOf cfg (run cfg {} evs).next := by
     intro x hx; simp only [chanOf, ho, if_true]; have := h.bufOld x hx; omega
@@ -238,10 +331,50 @@ theorem C19_late_answer_discarded (cfg : Cfg) (hg : cfg.good = true) (evs : List
   unfold step
   simp [hc]
 
+/-! ### slow connection set-up
+
+  While a request's connection is being set up its handler is already registered, so an answer read on an *older*
+  connection would be put into the new request's channel and taken by it the moment it starts waiting.  With the
+  deferred Close no older connection exists (`Inv.dialExcl`: while a request dials, no connection is open), and
+  the dial being synchronous the request's own timer starts only when its request has been written. -/
+
+/-- while a request is dialling, an answer to whichever request changes nothing -/
+theorem C19_answer_during_setup_discarded (cfg : Cfg) (hg : cfg.good = true) (evs : List Ev) (j : Nat)
+    (hd : (run cfg {} evs).dialing.isSome = true) :
+    step cfg (run cfg {} evs) (.answer j) = run cfg {} evs := by
+  have h := reachable_inv cfg hg evs
+  cases hk : (run cfg {} evs).dialing with
+  | none => simp [hk] at hd
+  | some k =>
+    have hc := (h.dialExcl k hk).2.2.1
+    unfold step
+    simp [hc]
+
+/-- a synchronous dial cannot be given up: the event changes nothing -/
+theorem C19_sync_dial_waits (cfg : Cfg) (hg : cfg.good = true) (s : St) : step cfg s .dialGiveUp = s := by
+  have hsd : cfg.syncDial = true := by simp [Cfg.good] at hg; exact hg.1.2
+  unfold step
+  cases s.dialing <;> simp [hsd]
+
+/-- when the set-up completes the request waits on its own, empty channel with its own connection open -/
+theorem C19_setup_done (cfg : Cfg) (hg : cfg.good = true) (evs : List Ev) (k : Nat)
+    (hd : (run cfg {} evs).dialing = some k) :
+    (step cfg (run cfg {} evs) (.dialDone k)).cur = some k ∧ (step cfg (run cfg {} evs) (.dialDone k)).conns = [k] := by
+  have h := reachable_inv cfg hg evs
+  have ho : cfg.ownChan = true := by simp [Cfg.good] at hg; exact hg.1.1.1.1.1.2
+  obtain ⟨_, _, e3, _, _, e6⟩ := h.dialExcl k hd
+  have hdr : ∀ x ∈ (run cfg {} evs).buf, x.1 ≠ chanOf cfg k := by
+    intro x hx; simp only [chanOf, ho, if_true]; exact e6 x hx
+  unfold step
+  simp only [hd, if_true]
+  unfold drain
+  simp only [takeMsg_none _ _ hdr, e3]
+  constructor <;> first | rfl | trivial
+
 /-! ### each fact is needed: the machines of the code before 396fba5 / 93b0ba8 -/
 
-def before : Cfg := ⟨false, false, false, false, 5000, true, true⟩       -- shared unbuffered channel, connection never closed
-def closeOnly : Cfg := ⟨true, false, false, false, 5000, true, true⟩    -- after 396fba5 only
+def before : Cfg := ⟨false, false, false, false, 5000, true, true, 0, true⟩       -- shared unbuffered channel, connection never closed
+def closeOnly : Cfg := ⟨true, false, false, false, 5000, true, true, 0, true⟩    -- after 396fba5 only
 
 /-- late answer, nobody waiting: the handler blocks and the next request is stuck for ever -/
 example : (run before {} [.start, .timeout, .ret, .answer 1, .start]).wedged = true := by decide
@@ -249,6 +382,14 @@ example : (run before {} [.start, .timeout, .ret, .answer 1, .start]).wedged = t
 example : (run before {} [.start, .timeout, .ret, .start, .answer 1]).log.head? = some (.foreign 2 1) := by decide
 /-- closing the connection on return leaves the window between the timer and the return -/
 example : (run closeOnly {} [.start, .timeout, .answer 1, .ret, .start]).wedged = true := by decide
+/-- an exchange that goes on after its request was reported as timed out (its connection still open) while the next
+    request sets its connection up: the old answer lands in the new request's channel and is taken as its answer -/
+def outlives : Cfg := { Chf.Gen.abmfClient with closesConn := false }
+example : (run outlives {} [.start, .timeout, .ret, .startSlow, .answer 1, .dialDone 2]).log.head? = some (.foreign 2 1) := by
+  decide
+/-- the same schedule on the working tree's machine: the old connection is closed, the answer is not read -/
+example : (run Chf.Gen.abmfClient {} [.start, .timeout, .ret, .startSlow, .answer 1, .dialDone 2, .answer 2, .ret]).log
+    = [.own 2, .timeout 1] := by decide
 /-- non-vacuity: the good machine on the same schedules -/
 example : (run Chf.Gen.abmfClient {} [.start, .timeout, .answer 1, .ret, .start, .answer 1, .answer 2, .ret]).log
     = [.own 2, .timeout 1] := by decide
